@@ -190,8 +190,9 @@ class StubCRTClient:
                 if kw.get('on_progress') is not None and data:
                     kw['on_progress'](len(data))
             else:
-                if kw.get('recv_filepath'):
-                    # the CRT may have created / partially written the file before failing
+                if kw.get('recv_filepath') and not getattr(req, 'no_partial_file', False):
+                    # the CRT may have created / partially written the file before failing (or it may have failed before it
+                    # created anything: then there is no temporary file to remove)
                     with open(kw['recv_filepath'], 'wb') as f:
                         f.write(data[: len(data) // 2])
                 err = RuntimeError(f'vf-crt-{"cancelled" if req.cancelled else "error"}-{req.idx}')
